@@ -263,6 +263,9 @@ def in_range(i, lo, hi):
     return And(lo <= i, i < hi)
 
 
+PINF = z3.Real('+inf')     # infinities as one unspecified huge real: sound for index / initialisation
+                           # reasoning, not for value semantics (assumption listed in the evidence)
+
 _fresh_ctr = itertools.count()
 
 
